@@ -28,6 +28,17 @@ inductive Name where
   | input
   | inputTsv
   | other (s : String)
+  /-- files of a collection written under a prefix `p` (`{root}{p}.scores_metadata_{i}{ext}`,
+  `{root}{p}.targets.{level}`, `{root}{p}.decoys.{level}`), the roll-up tool's temporary file
+  `{root}.temp.{level}s`, the `j`-th PIN file given to the CLI and its `{pin}.tsv`, the saved
+  model of fold `i` (extension of the model: `Model/FsRunExt.lean`) -/
+  | pchunk (p i : Nat)
+  | ptarget (p l : Nat)
+  | pdecoy (p l : Nat)
+  | temp (r l : Nat)
+  | pin (j : Nat)
+  | pinTsv (j : Nat)
+  | model (i : Nat)
   deriving DecidableEq, Repr
 
 /-- directory content: association list, the first binding of a name wins -/
